@@ -20,7 +20,16 @@ Variable LATEST : N.
 
 Definition NoCollision (w : world) (m : N) (mv : id) (src dest : list N) : Prop :=
   forall xm k suf x, model_at w m = Some xm -> assoc_get k (m_idents xm) = Some x -> reach T w mv x -> k = src ++ suf ->
-                     assoc_get (dest ++ suf) (m_idents xm) = None.
+                     suf <> [] -> assoc_get (dest ++ suf) (m_idents xm) = None.
+
+Lemma nocollision_b_sound idents src dest :
+  nocollision_b idents src dest = true ->
+  forall k suf (x : id), assoc_get k idents = Some x -> k = src ++ suf -> suf <> [] -> assoc_get (dest ++ suf) idents = None.
+Proof.
+  intros H k suf x Hk -> Hne. unfold nocollision_b in H. rewrite forallb_forall in H.
+  apply assoc_get_in in Hk. specialize (H _ Hk). cbn [fst] in H. rewrite strip_prefix_app in H.
+  destruct suf as [|c t]; [contradiction|]. destruct (assoc_get (dest ++ c :: t) idents); [discriminate H|reflexivity].
+Qed.
 
 (* the per-path re-keying loop *)
 Section PerPath.
@@ -76,7 +85,7 @@ Theorem move_local_container self mv pos m version w w' r :
   move_element_local T check_fn self mv pos m version w = Val (OK r, w') ->
   MReach T w m mv -> MReach T w m self -> self <> mv -> identifiable T w mv = false ->
   (forall n, w_nodes w self = Some n -> isref T (n_type n) = false) ->
-  (forall src dest, SpecPath T w m mv src -> SpecPath T w m self dest -> NoCollision w m mv src dest) ->
+  collision06 T w self mv = false -> model_of mv w = Val (OK m, w) ->
   exists src dest xm x',
     SpecPath T w m mv src /\ SpecPath T w m self dest /\ model_at w m = Some xm /\ model_at w' m = Some x' /\
     (forall rf p x, ref_text T w rf = Some p -> MReach T w m rf -> assoc_get p (m_idents xm) = Some x ->
@@ -86,7 +95,7 @@ Theorem move_local_container self mv pos m version w w' r :
        ~ (MReach T w m rf /\ exists x, assoc_get p (m_idents xm) = Some x /\ reach T w mv x) ->
        ref_text T w' rf = Some p).
 Proof.
-  intros (HT & H4 & H5) H HRmv HRself Hsm Hid Hselfref Hnc. unfold move_element_local in H.
+  intros (HT & H4 & H5) H HRmv HRself Hsm Hid Hselfref Hcol Hmodmv. unfold move_element_local in H.
   wk H. apply get_node_inv in E as (n & Hn & Q & _). injection Q as ->.
   wk H. apply wget_inv in E as ([= ->] & _).
   wk H. rename E into Eanc. destruct a; [discriminate H|].
@@ -103,7 +112,10 @@ Proof.
   destruct (Hps _ _ Esrc) as (_ & (src0 & [= <-] & Hsp)).
   destruct (path_unchecked_spec T w m self n HT Hn HRself) as (_ & Hpd).
   destruct (Hpd _ _ Edst) as (_ & (dest0 & [= <-] & Hdp)).
-  specialize (Hnc src dest Hsp Hdp).
+  assert (Hnc : NoCollision w m mv src dest).
+  { unfold collision06 in Hcol. rewrite Hn, Hmn, Esrc, Edst, Hmodmv in Hcol.
+    intros xm0 k suf x Hxm0 Hk _ Hks Hne. rewrite Hxm0 in Hcol. apply Bool.negb_false_iff in Hcol.
+    eapply nocollision_b_sound; eauto. }
   assert (Hpar : n_parent mn = PElem src_parent).
   { unfold parent_of in Epar. destruct (n_parent mn); try discriminate Epar.
     apply wret_inv in Epar as ([= ->] & _). reflexivity. }
@@ -164,7 +176,7 @@ Proof.
     { intros E. apply app_eq_nil in E as (_ & E). contradiction. }
     assert (Hky : assoc_get (dest ++ u) (m_idents xm) = Some y).
     { apply (i4_exact _ _ _ H4 m xm Hxm). split; [eapply specpath_mreach; eauto|]. split; assumption. }
-    rewrite (Hnc xm op u x Hxm Hgx Hrx Hu) in Hky. discriminate Hky. }
+    rewrite (Hnc xm op u x Hxm Hgx Hrx Hu Hune) in Hky. discriminate Hky. }
   assert (HB : forall op op2 u2, In op (map fst orig) -> In op2 (map fst orig) -> op2 = src ++ u2 ->
             forall s s', boundary s = true -> boundary s' = true -> op ++ s = (dest ++ u2) ++ s' -> False).
   { intros op op2 u2 Hop Hop2 Hu2 s s' Hb Hb' Heq.
@@ -212,7 +224,8 @@ Proof.
           rewrite <- app_assoc in Hq. rewrite <- (app_nil_r src) in Hq at 1. apply app_inv_head in Hq.
           symmetry in Hq. apply app_eq_nil in Hq as (Hq & _). discriminate Hq.
         * (* y below mv: its new path dest ++ t1 = op is already a key: collision *)
-          rewrite Ht1 in Hgx. rewrite (Hnc xm (src ++ t1) t1 y Hxm Hky Hmvy eq_refl) in Hgx. discriminate Hgx. }
+          rewrite Ht1 in Hgx. rewrite (Hnc xm (src ++ t1) t1 y Hxm Hky Hmvy eq_refl) in Hgx; [discriminate Hgx|].
+          unfold t1. discriminate. }
   assert (Hsrcs : forall op, In op (map fst orig) -> exists u, op = src ++ u).
   { intros op Hop. destruct (Htodo op Hop) as (x & Hgx & Hrx & _). destruct (Hsuf op x Hgx Hrx) as (u & Hu & _). eauto. }
   destruct (rekey_iter src dest (m_idents xm) (map fst orig) (i4_nodup _ _ _ H4 m xm Hxm) Hsrcs HA HB) as (_ & Hget).
@@ -329,13 +342,13 @@ Lemma container_of_local h mv pos m version w w' r :
   move_element_local T check_fn h mv pos m version w = Val (OK r, w') ->
   model_of h w = Val (OK m, w) -> model_of mv w = Val (OK m, w) -> h <> mv -> identifiable T w mv = false ->
   (forall n, w_nodes w h = Some n -> isref T (n_type n) = false) ->
-  (forall src dest, SpecPath T w m mv src -> SpecPath T w m h dest -> NoCollision w m mv src dest) ->
+  collision06 T w h mv = false ->
   container_clauses w w' m mv.
 Proof.
   intros HI Hml Hmh Hmm Hne Hid Hnr Hnc. pose proof HI as (HT & H4 & H5).
   assert (HRmv : MReach T w m mv) by (apply (model_of_mreach T); assumption).
   assert (HRh : MReach T w m h) by (apply (model_of_mreach T); assumption).
-  destruct (move_local_container h mv pos m version w w' r HI Hml HRmv HRh Hne Hid Hnr Hnc)
+  destruct (move_local_container h mv pos m version w w' r HI Hml HRmv HRh Hne Hid Hnr Hnc Hmm)
     as (src & dest & xm & x' & Hsp & Hdp & Hxm & Hx' & Ht1 & Ht2).
   split.
   - intros rf x Hlive (xm0 & p & Hxm0 & Hr & Hp) Hb. assert (xm0 = xm) by congruence. subst xm0.
@@ -357,7 +370,7 @@ Theorem C06_move_container h mv w w' r m :
   e_move_element_here T tab_en check_fn LATEST h mv w = Val (OK r, w') ->
   model_of h w = Val (OK m, w) -> model_of mv w = Val (OK m, w) ->
   identifiable T w mv = false ->
-  (forall src dest, SpecPath T w m mv src -> SpecPath T w m h dest -> NoCollision w m mv src dest) ->
+  collision06 T w h mv = false ->
   container_clauses w w' m mv.
 Proof.
   intros TK HI H Hmh Hmm Hid Hnc.
@@ -371,7 +384,7 @@ Theorem C06_move_at_container h mv pos w w' r m :
   e_move_element_here_at T tab_en check_fn LATEST h mv pos w = Val (OK r, w') ->
   model_of h w = Val (OK m, w) -> model_of mv w = Val (OK m, w) ->
   identifiable T w mv = false ->
-  (forall src dest, SpecPath T w m mv src -> SpecPath T w m h dest -> NoCollision w m mv src dest) ->
+  collision06 T w h mv = false ->
   container_clauses w w' m mv.
 Proof.
   intros TK HI H Hmh Hmm Hid Hnc. pose proof (e_move_here_at_neq _ _ _ _ _ _ H) as Hne.
